@@ -172,7 +172,7 @@ class Gen:
         for n, w in self.outs:
             L.append("        self.%s = self.addOut('%s', %s)" % (n, n, n))
         for n, v in self.states:
-            L.append('        self.%s = %d' % (n, v))
+            L.append('        self.%s = %r' % (n, v))
         L.append('        self.k = k')
         L.append('')
         L.append('    def %s(self):' % self.kind)
@@ -260,6 +260,23 @@ def write_programs(tier, seed):
         with open(os.path.join(d, mod + '.py'), 'w') as f:
             f.write(g.wrap('P', body))
         progs.append(('directed: %s' % label, mod, 'clock', {'ins': g.ins, 'outs': g.outs, 'states': g.states, 'k': 3}))
+    # state attributes initialised with True/False and later used as numbers
+    for j, (label, states, body) in enumerate([
+            ('flag initialised with False, later holds a multi-bit value', [('st', False), ('cnt', 2)],
+             ['        self.st = self.b.get() & 6', '        if self.st:', '            self.s.prepare(1)', '        else:', '            self.s.prepare(0)',
+              '        self.r.prepare(self.st)']),
+            ('flag initialised with True, accumulates', [('st', True), ('cnt', 0)],
+             ['        self.r.prepare(self.st + self.cnt)', '        self.cnt = self.st + self.a.get()', '        self.st = self.c.get()']),
+            ('two flags and a counter', [('st', False), ('cnt', True)],
+             ['        if self.c.get():', '            self.st = self.cnt', '            self.cnt = self.a.get()', '        self.r.prepare(self.st | self.cnt)'])]):
+        rnd = random.Random('b/%d' % j)
+        g = Gen(rnd, 'clock')
+        g.ins, g.outs = [('a', 4), ('b', 8), ('c', 1)], [('r', 8), ('s', 1)]
+        g.states = states
+        mod = 'b%03d' % j
+        with open(os.path.join(d, mod + '.py'), 'w') as f:
+            f.write(g.wrap('P', body))
+        progs.append(('directed: %s' % label, mod, 'clock', {'ins': g.ins, 'outs': g.outs, 'states': g.states, 'k': 3}))
     for j, (label, body) in enumerate(UNSUPPORTED.items()):
         rnd = random.Random('u/%d' % j)
         g = Gen(rnd, 'clock')
@@ -277,7 +294,7 @@ def write_programs(tier, seed):
 
 def state_attrs(obj):
     """integer attributes that the constructor assigned (state / constants)"""
-    return {k: v for k, v in obj.__dict__.items() if isinstance(v, int) and not isinstance(v, bool)}
+    return {k: int(v) for k, v in obj.__dict__.items() if isinstance(v, int)}        # a flag initialised with True/False is state too
 
 
 class _WrapLiterals(ast.NodeTransformer):
@@ -358,6 +375,13 @@ def behav_task(p, cfg, rec):
             corr[vn] = ('attr', vn)
         else:
             temps.append(vn)          # a Python local: arbitrary previous content, not compared
+    narrow = {vn: vstate_nets[vn] for vn, (k, x) in corr.items() if k == 'attr' and vstate_nets[vn] < 32}
+    p.structural('no integer state attribute is declared narrower than the 32 bits of its value domain', not narrow, detail={'declared widths': narrow})
+    if narrow:
+        return
+    if any(vstate_nets[vn] > 32 for vn, (k, x) in corr.items() if k == 'attr'):
+        p.inconclusive('state', 'state variable wider than 32 bits (outside the harness)')
+        return
     # --- initial values
     vinit = elab.Sim(d, {}, None).state
     diff = {}
